@@ -153,8 +153,13 @@ def namespace(solver: Solver, taus: List[SQ]) -> Dict[str, Any]:
     # obligation (see check_exact) instead of an unknown name: at the generic point a value is non-zero and not "close" to anything
     tests: List[str] = []
     ns["__tolerance_tests__"] = tests
-    ns["isclose"] = lambda a, b, *r, **k: tests.append("isclose") or False
-    ns["allclose"] = lambda a, b, *r, **k: tests.append("allclose") or False
+    def _exactly(a, b):
+        try:
+            return bool(a == b)
+        except Exception:       # noqa: BLE001 - symbolic values that cannot be compared: not "close"
+            return False
+    ns["isclose"] = lambda a, b, *r, **k: tests.append("isclose") or _exactly(a, b)
+    ns["allclose"] = lambda a, b, *r, **k: tests.append("allclose") or _exactly(a, b)
     return ns
 
 
